@@ -118,6 +118,8 @@ class ClientBuilder:
     def shutdown(self):
         self.call("airtouch", "shutdown")
         self.op(op="quiesce")
+        self.op(op="resume")         # a close waiting for a stalled buffer to drain may complete now
+        self.op(op="quiesce")
         self.op(op="resolve_all", how="ok")
         self.op(op="quiesce")
         self.op(op="advance", by=10000)
